@@ -35,8 +35,7 @@ pub struct PrivateKey { _opaque: u8 }
 pub open spec fn strs(v: Seq<&str>) -> Seq<Seq<char>> { Seq::new(v.len(), |i: int| v[i]@) }
 //@extract src/runlib.rs fn:in_toto_run stub
 //@contract ret=r
-    ensures r is Ok ==> r->Ok_0.metadata is Link,
-            r is Ok ==> ran_as(name@, strs(cmd_args@), r->Ok_0.metadata->Link_0),
+//@include contracts/in_toto_run.rs
 //@end
 impl ByProducts {
 //@extract src/models/link/byproducts.rs impl:ByProducts/fn:return_value stub
